@@ -922,7 +922,8 @@ def exec_rxedit(case):
         else:
             out.append(num(lambda: r.get_A(T=T, include_entropy=False)))
             out.append(num(lambda: r.beta))
-            out.append(num(lambda: r.sticking_coeff))
+            # the sticking coefficient is only relevant (documented) for an adsorption reaction
+            out.append(num(lambda: r.sticking_coeff if r.is_adsorption else None))
         out.append(num(lambda: r.get_H_act(units=u, T=T)))
         out.append(num(lambda: r.get_G_act(units=u, T=T, P=P)))
         return out
@@ -932,7 +933,8 @@ def exec_rxedit(case):
         method = case['methods'][stage % len(case['methods'])]
         fresh = build({a: getattr(rx, a) for a in attrs})
         ve, vf = vector(rx, method), vector(fresh, method)
-        evs.append({'ev': 'fresh', 'what': cls, 'edited': ve, 'fresh': vf, 'stage': stage, 'attr': attr})
+        evs.append({'ev': 'fresh', 'what': cls, 'edited': ve, 'fresh': vf, 'stage': stage, 'attr': attr,
+                    'nostick': bool(rx.is_adsorption and rx.sticking_coeff is None)})
         # a computed Ea of the edited object is still the clamp
         if cls == 'SurfaceReaction' and rx.Ea is None:
             q = 'G' if (not rx.is_adsorption or method == 'get_G_act') else 'H'
@@ -1089,6 +1091,7 @@ def make_cases(ctx, data, rnd):
         ({'is_adsorption': False, 'A': 5.0e12, 'Ea': 3.0}, [['Ea', None], ['A', None], ['beta', None]]),
         ({'is_adsorption': False, 'sticking_coeff': 0.3}, [['is_adsorption', True], ['sticking_coeff', 0.9], ['Ea', 0.0]]),
         ({'is_adsorption': True, 'beta': 0.0}, [['beta', 2.0], ['sticking_coeff', 1.0], ['is_adsorption', False]]),
+        ({'is_adsorption': False}, [['is_adsorption', True], ['Ea', 0.0], ['sticking_coeff', 0.4]]),
     ]
     for i in range(ctx.pick(48, 600)):
         init, ed = rprogs[(i + ctx.seed) % len(rprogs)]
@@ -1181,6 +1184,8 @@ def _tags_of_event(case, ctags, e):
         t['nosite'] = True
     if e.get('handed'):
         t['handed'] = True
+    if e.get('nostick'):
+        t['nostick'] = True
     for k in ('q', 'dir', 'desc', 'route', 'op', 'fn', 'attr', 'what', 'stage'):
         if k in e:
             t[k] = e[k]
